@@ -13,6 +13,7 @@ import (
 	"sort"
 	"strings"
 	"sync"
+	"sync/atomic"
 	"syscall"
 	"time"
 
@@ -23,6 +24,9 @@ import (
 	"github.com/spf13/afero"
 	"go.uber.org/zap"
 )
+
+// stagedSeq numbers the temporary files of this process which stage overwrites
+var stagedSeq uint64
 
 // New creates a new local file system backed storage model
 func New(fs afero.Fs, opts ...Option) storage.Store {
@@ -170,16 +174,34 @@ func (l *localFS) Put(ctx context.Context, key string, source io.Reader, exclusi
 			return fmt.Errorf("ensuring directories for %q: %v", key, e)
 		}
 	}
-	flag := os.O_CREATE | os.O_WRONLY | os.O_SYNC | os.O_TRUNC
-	if exclusive {
-		flag |= os.O_EXCL
+	flag := os.O_CREATE | os.O_WRONLY | os.O_SYNC | os.O_TRUNC | os.O_EXCL
+	// A create-if-absent write goes straight to the key: O_EXCL arbitrates between concurrent writers.
+	// An overwrite is staged in a temporary sibling, then renamed into place: readers (and writers checking what they
+	// have just written) never observe the record truncated by another writer of the same key.
+	name := key
+	if !exclusive {
+		name = fmt.Sprintf("%s.%d-%d.tmp", key, os.Getpid(), atomic.AddUint64(&stagedSeq, 1))
+	}
+	commit := func(err error) error {
+		if exclusive {
+			return err
+		}
+		if err == nil {
+			err = l.fs.Rename(name, key)
+		}
+		if err != nil {
+			if e := l.fs.Remove(name); e != nil && !os.IsNotExist(e) {
+				l.l.Error("could not remove staged record", zap.String("key", key), zap.Error(e))
+			}
+		}
+		return err
 	}
 	// If reader implements writeto use it.
 	wt, ok := source.(io.WriterTo)
 	if ok {
 		// wrapping WriteTo execution so it can be retried
 		operation := func() error {
-			target, err = l.fs.OpenFile(key, flag, 0600)
+			target, err = l.fs.OpenFile(name, flag, 0600)
 			if err != nil {
 				return fmt.Errorf("create record for %q: %v", key, err)
 			}
@@ -202,6 +224,7 @@ func (l *localFS) Put(ctx context.Context, key string, source io.Reader, exclusi
 				}
 			}
 
+			err = commit(err)
 			return err
 		}
 		err = backoff.Retry(operation, retryPolicy)
@@ -211,7 +234,7 @@ func (l *localFS) Put(ctx context.Context, key string, source io.Reader, exclusi
 	} else {
 		// wrapping PipeIO execution so it can be retried
 		operation := func() error {
-			target, err = l.fs.OpenFile(key, flag, 0600)
+			target, err = l.fs.OpenFile(name, flag, 0600)
 			if err != nil {
 				return fmt.Errorf("create record for %q: %v", key, err)
 			}
@@ -234,6 +257,7 @@ func (l *localFS) Put(ctx context.Context, key string, source io.Reader, exclusi
 				}
 			}
 
+			err = commit(err)
 			return err
 		}
 		err = backoff.Retry(operation, retryPolicy)
